@@ -14,12 +14,16 @@ CONSTANT Types <- GTypes
 CONSTANT SigmaOf <- GSigma
 CONSTANT MultiOf <- GMulti
 CONSTANT RareSigmaOf <- GRare
+CONSTANT RemSigmaOf <- GRem
+CONSTANT RemAddsOf <- GRemAdds
 CONSTANT Chks = {%(chks)s}
 CONSTANT Families = {%(families)s}
 CONSTANT DepthOf <- GDepth
 CONSTANT WordLenOf <- GWord
 CONSTANT MaxPerSym = %(maxpersym)d
 CONSTANT MaxRare = %(maxrare)d
+CONSTANT PlanLen = %(planlen)d
+CONSTANT PlanStrideOf <- GStride
 CONSTANT Ops = {%(ops)s}
 INVARIANT Emit
 CHECK_DEADLOCK FALSE
@@ -30,10 +34,10 @@ TIERS = {
     # K: symbols per type in the uniform family; R: symbols used by rare operations
     'quick': dict(K=6, R=2, depth_small=3, depth_big=3, small=6, wordlen=4, wordlen_big=3, big=12, maxpersym=2, maxrare=1,
                   ops=['add', 'fwd', 'remove', 'replace', 'tostring', 'tostring_ic', 'dotelem', 'dotnone'],
-                  families=['uniform', 'words', 'perms', 'removal', 'cover'], chks=['TRUE', 'FALSE'], shards=32),
+                  families=['uniform', 'words', 'perms', 'removal', 'cover', 'afterfail', 'wordrem'], chks=['TRUE', 'FALSE'], shards=40, RM=4, remadds=3, planlen=8, planmax=250),
     'thorough': dict(K=10, R=4, depth_small=4, depth_big=3, small=6, wordlen=5, wordlen_big=4, big=12, maxpersym=2, maxrare=1,
                      ops=['add', 'fwd', 'remove', 'replace', 'tostring', 'tostring_ic', 'dotelem', 'dotnone'],
-                     families=['uniform', 'words', 'perms', 'removal', 'cover'], chks=['TRUE', 'FALSE'], shards=64),
+                     families=['uniform', 'words', 'perms', 'removal', 'cover', 'afterfail', 'wordrem'], chks=['TRUE', 'FALSE'], shards=64, RM=6, remadds=4, planlen=12, planmax=100000),
 }
 
 
@@ -76,12 +80,15 @@ def type_plan(J, t, P, unconstructible):
             break
         take(x)
     sigma = [x for x in alpha if x in chosen[:max(P['K'], 1)]] if len(alpha) > P['K'] else alpha
-    rare = sigma[:P['R']]
+    rare = sigma if len(sigma) <= 4 else sigma[:P['R']]
+    rem = [x for x in sigma if x in chosen[:P.get('RM', 4)]] or sigma[:4]
     small = len(sigma) <= P['small']
     depth = P['depth_small'] if small else P['depth_big']
     wl = P['wordlen'] if len(alpha) <= P['big'] else P['wordlen_big']
-    return dict(sigma=sigma, multi=[x for x in multi if x in sigma], rare=rare, depth=depth, wordlen=wl,
-                cost=(len(sigma) + 4) ** depth)
+    edges = sum(len(v) for v in a['follow'].values())
+    stride = max(1, -(-edges // P.get('planmax', 250)))
+    return dict(sigma=sigma, multi=[x for x in multi if x in sigma], rare=rare, rem=rem, remadds=P.get('remadds', 3), depth=depth, wordlen=wl, stride=stride,
+                cost=10 * (len(sigma) + 4) ** depth + 80 * edges // stride)
 
 
 def shortest_word(a):
@@ -126,7 +133,7 @@ def unconstructible_names(wd):
     return json.loads(p.stdout.decode().strip().splitlines()[-1])
 
 
-def shard_pipeline(wd, k, types, plans, P):
+def shard_pipeline(wd, k, types, plans, P, families=None):
     """GEN -> replay -> TV for one shard of types; returns dict(divergences, counts, stats)"""
     sd = os.path.join(wd, 'shard%02d' % k)
     os.makedirs(sd, exist_ok=True)
@@ -136,12 +143,15 @@ def shard_pipeline(wd, k, types, plans, P):
         f.write('GSigma == %s\n' % fun([(t, plans[t]['sigma']) for t in types], tset))
         f.write('GMulti == %s\n' % fun([(t, plans[t]['multi']) for t in types], tset))
         f.write('GRare == %s\n' % fun([(t, plans[t]['rare']) for t in types], tset))
+        f.write('GRem == %s\n' % fun([(t, plans[t]['rem']) for t in types], tset))
+        f.write('GRemAdds == %s\n' % fun([(t, plans[t]['remadds']) for t in types], str))
+        f.write('GStride == %s\n' % fun([(t, plans[t]['stride']) for t in types], str))
         f.write('GDepth == %s\n' % fun([(t, plans[t]['depth']) for t in types], str))
         f.write('GWord == %s\n' % fun([(t, plans[t]['wordlen']) for t in types], str))
         f.write('====\n')
     with open(os.path.join(sd, 'G.cfg'), 'w') as f:
-        f.write(GEN_CFG % dict(chks=','.join(P['chks']), families=','.join(q(x) for x in P['families']),
-                               maxpersym=P['maxpersym'], maxrare=P['maxrare'], ops=','.join(q(x) for x in P['ops'])))
+        f.write(GEN_CFG % dict(chks=','.join(P['chks']), families=','.join(q(x) for x in (families or P['families'])),
+                               maxpersym=P['maxpersym'], maxrare=P['maxrare'], planlen=P.get('planlen', 8), ops=','.join(q(x) for x in P['ops'])))
     t0 = time.time()
     g = tlc.run(os.path.join(sd, 'G.tla'), os.path.join(sd, 'G.cfg'), workers=1, timeout=3600, heap='2g', light=True)
     if not g['complete']:
@@ -208,7 +218,7 @@ def shard_pipeline(wd, k, types, plans, P):
         os.remove(os.path.join(sd, 'jobs.json'))
     return dict(divergences=divs, counts=done[0][2], events=len(events), behaviours=nbeh, gen_states=g['distinct'],
                 gen_transitions=g['generated'], tv_states=v['distinct'], samples=samples, opcount=opcount,
-                times=dict(gen=round(t1 - t0, 1), replay=round(t2 - t1, 1), tv=round(t3 - t2, 1)), types=types,
+                times=dict(gen=round(t1 - t0, 1), replay=round(t2 - t1, 1), tv=round(t3 - t2, 1), types=types, families=families), types=types,
                 inapplicable=sum(j['inapplicable'] for j in rstats['jobs']), pruned=pruned)
 
 
@@ -253,18 +263,35 @@ def run_campaign(tier):
         unc = unconstructible_names(wd)
         plans = {t: type_plan(J, t, P, unc) for t in sorted(J['cm'])}
         plans = {t: p for t, p in plans.items() if p['sigma']}
-        # balance shards by estimated cost (largest first)
-        order = sorted(plans, key=lambda t: -plans[t]['cost'])
-        n = min(P['shards'], len(order))
-        shards = [[] for _ in range(n)]
-        load = [0] * n
-        for t in order:
-            i = load.index(min(load))
-            shards[i].append(t)
-            load[i] += plans[t]['cost']
+        # work units: a type with all families, or -- for the heaviest types -- one unit per family group; balanced over
+        # the shards by estimated cost, largest first
+        groups = [['uniform'], ['cover', 'wordrem'], [f for f in P['families'] if f not in ('uniform', 'cover', 'wordrem')]]
+        total = sum(p['cost'] for p in plans.values())
+        units = []
+        for t, p in plans.items():
+            if p['cost'] > total / (2.0 * common.NCPU):
+                for g in groups:
+                    g = [f for f in g if f in P['families']]
+                    if g:
+                        units.append((p['cost'] / 3.0, t, tuple(g)))
+            else:
+                units.append((p['cost'], t, tuple(P['families'])))
+        units.sort(key=lambda u: (-u[0], u[1], u[2]))
+        n = min(P['shards'], len(units))
+        shards = [dict(load=0, byfam={}) for _ in range(n)]
+        for cost, t, fams in units:
+            # a shard runs ONE TLC generation per family set, so keep family sets apart
+            cands = [s_ for s_ in shards if not s_['byfam'] or fams in s_['byfam']]
+            s_ = min(cands or shards, key=lambda z: z['load'])
+            s_['byfam'].setdefault(fams, []).append(t)
+            s_['load'] += cost
+        jobs = []
+        for s_ in shards:
+            for fams, ts in s_['byfam'].items():
+                jobs.append((sorted(ts), list(fams)))
         results = []
         with ThreadPoolExecutor(max_workers=common.NCPU) as ex:
-            futs = [ex.submit(shard_pipeline, wd, k, sorted(ts), plans, P) for k, ts in enumerate(shards) if ts]
+            futs = [ex.submit(shard_pipeline, wd, k, ts, plans, P, fams) for k, (ts, fams) in enumerate(jobs)]
             for f in futs:
                 results.append(f.result())
         counts = {}
